@@ -79,6 +79,7 @@ pub enum Op {
     DropRx(usize),
     CellRead(usize),
     CellWrite(usize),
+    CellNested(usize, usize),
     Yield,
     Await(usize, usize, Ordering),
     UnsyncLoad(usize),
@@ -196,6 +197,7 @@ fn parse_op(s: &str) -> Result<Op, String> {
         "drx" => Op::DropRx(num(a(1)?)?),
         "cr" => Op::CellRead(num(a(1)?)?),
         "cw" => Op::CellWrite(num(a(1)?)?),
+        "cn" => Op::CellNested(num(a(1)?)?, num(a(2)?)?),
         "yl" => Op::Yield,
         "aw" => Op::Await(num(a(1)?)?, num(a(2)?)?, ord(a(3)?)?),
         "usl" => Op::UnsyncLoad(num(a(1)?)?),
